@@ -606,7 +606,7 @@ impl HybSim {
         let mut mem_contains = 0u32;
         let mut disk_contains = 0u32;
         if let Some(cache) = self.cache.as_ref() {
-            for k in 0..self.cfg.universe() as u64 {
+            for k in 0..(self.cfg.universe() as u64).min(32) {
                 if cache.memory().contains(&k) {
                     mem_contains |= 1 << k;
                 }
@@ -898,6 +898,99 @@ impl HybSim {
             }
         };
         self.observe(ret, resolved, hang)
+    }
+
+    // ---- raw helpers for checks with their own op loops (C10, C04, C09) ---------------------------------------
+
+    pub fn raw_insert(&mut self, key: u64, len: usize) -> u64 {
+        let (version, value) = self.new_value(key, len, false);
+        let e = self.cache().insert(key, value);
+        drop(e);
+        version
+    }
+
+    pub fn raw_remove(&mut self, key: u64) {
+        self.cache().remove(&key);
+    }
+
+    pub fn raw_evict_all(&mut self) {
+        self.cache().memory().evict_all();
+    }
+
+    /// blocking lookup: issues get(), pumps io until it resolves; Err(task) = hang
+    pub fn raw_get(&mut self, key: u64) -> Result<LookupOut, usize> {
+        let fut = self.cache().get(&key);
+        let t = self.spawn_task(TaskKind::Get { k: key }, async move { TaskOut::Lookup(lookup_out(fut.await)) });
+        let mut resolved = vec![];
+        match self.drain_until(t, &mut resolved) {
+            None => match self.tasks[t].out.clone() {
+                Some(TaskOut::Lookup(o)) => Ok(o),
+                _ => Err(t),
+            },
+            Some(t) => Err(t),
+        }
+    }
+
+    /// blocking wait(): Ok when it resolved, Err = hang
+    pub fn raw_wait(&mut self) -> Result<(), usize> {
+        let store = self.cache().storage().clone();
+        let t = self.spawn_task(TaskKind::Wait, async move {
+            store.wait().await;
+            TaskOut::Unit(Ok(()))
+        });
+        let mut resolved = vec![];
+        match self.drain_until(t, &mut resolved) {
+            None => Ok(()),
+            Some(t) => Err(t),
+        }
+    }
+
+    pub fn raw_settle(&mut self) {
+        self.settle();
+        let _ = self.collect();
+    }
+
+    pub fn raw_drain(&mut self) {
+        let _ = self.drain();
+    }
+
+    /// graceful close + reopen on the same image; Err = close hangs / open failed
+    pub fn raw_reopen(&mut self) -> Result<(), String> {
+        let st = self.step(&HOp::Reopen);
+        match st.ret {
+            HRet::Reopened(true) => Ok(()),
+            HRet::Reopened(false) => Err("open failed".into()),
+            _ => Err("close never resolves".into()),
+        }
+    }
+
+    /// the process dies now: only completed device writes survive; reopen from that image
+    pub fn raw_crash_reopen(&mut self, tears: &[(usize, u64)]) -> Result<(), String> {
+        let image = self.disk.crash_image(tears);
+        self.sync_log();
+        self.disk.abandon_pending();
+        self.handles.clear();
+        self.cache = None;
+        drop(self.rt.take());
+        self.rt = Some(tokio::runtime::Builder::new_current_thread().build().unwrap());
+        let hold = self.disk.is_hold();
+        self.disk = SimDisk::from_image(image);
+        self.disk.set_hold(hold);
+        self.generation += 1;
+        if self.open(RecoverMode::Quiet) { Ok(()) } else { Err("open failed".into()) }
+    }
+
+    pub fn shed_counters(&self) -> (u64, u64) {
+        (self.reg.get("buffer_overflow"), self.reg.get("channel_overflow"))
+    }
+
+    pub fn full_log(&mut self) -> Vec<(u32, LogRec)> {
+        self.sync_log();
+        self.log.clone()
+    }
+
+    pub fn generation(&self) -> u32 {
+        self.generation
     }
 
     /// Take a crash image now (completed writes + torn pending writes), as a fresh disk image.
